@@ -98,6 +98,7 @@ PROPS = {
             {"name": "race-group", "quick": 8000, "thorough": 1000000, "thorough_time": 60, "extra": ["-sim.only=race"]},
             {"name": "race-wrap", "quick": 8000, "thorough": 1000000, "thorough_time": 60, "extra": ["-sim.only=race"]},
             {"name": "race-models", "quick": 16000, "thorough": 1000000, "thorough_time": 150, "extra": ["-sim.only=race"]},
+            {"name": "race-servers", "quick": 16000, "thorough": 1000000, "thorough_time": 150, "extra": ["-sim.only=race"]},
         ],
         "require_hits": ["resource.gau.commit", "bus.send.each", "router.get.insert", "electric.mu"],
         "assumptions": ["tasks keep only task-local harness state; nothing is compared across tasks"],
